@@ -1243,6 +1243,11 @@ def defaultMethod : Loc → Sty × Bool
   | .query => (.form, true)
   | .cookie => (.form, true)
 
+/-- Parameter.SerializationMethod: style and explode are defaulted independently of each other — a parameter that spells
+out `style: form` and leaves `explode` out still explodes -/
+def smOf (loc : Loc) (style : Option Sty) (explode : Option Bool) : Cell :=
+  ⟨loc, style.getD (defaultMethod loc).1, explode.getD (defaultMethod loc).2⟩
+
 /-! ## exclusion predicates (known-finding classes) -/
 
 /-- #31: cookie, form, explode=true with an array or object schema -/
